@@ -74,9 +74,17 @@ func runC10(s *kernel.Sim) {
 
 	siteOn, density := lockSites(tp)
 	s.Knobs["lock_sites"] = density
+	// in a third of the runs the queue's own roll-over goroutine is scheduled at
+	// lock sites too: an arrival can then take the queue mutex in the new window
+	// before the roll-over goroutine, whose timer has already fired, gets it.
+	// It is never held back while the clock moves (no stall: R1 counts the slots
+	// handed out at the roll-over instant).
+	bgYield := tp.Chance(1, 3)
+	advancing, settling := false, false
+	s.Knobs["rollover_goroutine_schedulable"] = bgYield
 	s.YieldOn = func(point string, a []string, harness bool) bool {
 		if !harness {
-			return false
+			return bgYield && !advancing && !settling && isLockPoint(point)
 		}
 		if isLockPoint(point) {
 			return siteOn(a[0])
@@ -202,13 +210,38 @@ func runC10(s *kernel.Sim) {
 		if len(order) >= nArr && len(waiting()) == 0 && len(parked) == 0 {
 			break
 		}
+		bgParked := false
+		for _, t := range parked {
+			bgParked = bgParked || !t.Harness
+		}
+		drainBG := func() {
+			for i := 0; i < 200; i++ {
+				var bg []*kernel.Task
+				for _, t := range s.ParkedTasks() {
+					if !t.Harness {
+						bg = append(bg, t)
+					}
+				}
+				if len(bg) == 0 {
+					return
+				}
+				s.Resume(bg[0])
+			}
+		}
 		switch tp.Weighted(w) {
 		case 0:
-			s.Sleep(time.Microsecond)
+			if !bgParked { // while the roll-over goroutine is held, arrivals come at the same instant
+				advancing = true // a roll-over inside this microsecond runs freely (never stalled while time passes)
+				s.Sleep(time.Microsecond)
+				advancing = false
+			} else {
+				s.FaultFired("arrival_while_rollover_goroutine_waits_for_the_mutex")
+			}
 			startArrival()
 		case 1:
 			resume(parked[tp.Choose(len(parked))])
 		case 2:
+			drainBG()
 			nb := nextBoundary()
 			targets := []time.Duration{s.Now() + time.Microsecond, nb, nb - 1, nb + 1, nb + time.Duration(tp.Choose(3))*W + W/2}
 			for _, r := range waiting() {
@@ -219,11 +252,34 @@ func runC10(s *kernel.Sim) {
 				targets = append(targets, e, e-1, e+1)
 			}
 			t := targets[tp.Choose(len(targets))]
+			if bgYield && len(waiting()) > 0 && tp.Chance(1, 2) {
+				t = nb // the instant at which the roll-over goroutine and new arrivals compete for the mutex
+			}
+			if bgYield && t > s.Now()+1 {
+				advancing = true // roll-overs inside the jump run freely; one at the target instant is scheduled
+				s.SleepUntil(t - 1)
+				advancing = false
+			}
 			s.SleepUntil(t)
+			// the roll-over goroutine now waits for the queue mutex: let a new arrival
+			// run all the way through Enqueue first (the rare order), half of the time
+			held := false
+			for _, p := range s.ParkedTasks() {
+				held = held || !p.Harness
+			}
+			if held && len(order) < nArr && tp.Chance(1, 2) {
+				s.FaultFired("arrival_while_rollover_goroutine_waits_for_the_mutex")
+				startArrival()
+				a := order[len(order)-1]
+				for i := 0; i < 100 && a.task.Parked() && a.task.Point != "dpq.after_unlock_before_wait"; i++ {
+					resume(a.task)
+				}
+			}
 		}
 		checkSize()
 	}
 	// settle: faults stop, every task is released and time passes every TTL
+	settling = true
 	for i := 0; i < 20 && !s.Failed(); i++ {
 		for _, t := range s.ParkedTasks() {
 			resume(t)
